@@ -51,13 +51,35 @@ def loop_verdict(tr, outcome, raised, env, ex, s):
 
 
 def wraps_with_state(tr, outcome, raised, env, ex, s):
-    """C11: an exception leaving the loop is an ExecutionError (re-raised unchanged, or wrapping the cause with the pre-step state)."""
+    """C11: an Exception leaving the loop is an ExecutionError (re-raised unchanged, or wrapping the cause with the pre-step
+    state); non-Exception signals (KeyboardInterrupt, SystemExit) pass through untouched."""
     if not outcome.startswith("raise"):
         return True
+    import z3
     from pyvc import smt
     if raised.exc is None:
         return raised.cls == "ExecutionError"
-    return smt.inst_pred("ExecutionError")(raised.exc.t)
+    return z3.Or(smt.inst_pred("ExecutionError")(raised.exc.t), z3.Not(smt.inst_pred("Exception")(raised.exc.t)))
+
+
+def pause_carries_state(tr, outcome, raised, env, ex, s):
+    """C14/C11: what leaves the asynchronous loop is an ExecutionError (carrying the state so far) or a non-Exception signal; a
+    pause signal carries, as `_partial_state`, the state the loop held when the pausing step started (nothing of that step)."""
+    import z3
+    from pyvc import smt
+    if not outcome.startswith("raise"):
+        return True
+    if raised.exc is None:
+        return raised.cls == "ExecutionError"
+    e = raised.exc.t
+    is_pause = smt.inst_pred("PauseExecution")(e)
+    if "state" not in env:
+        return z3.Or(smt.inst_pred("ExecutionError")(e), z3.Not(smt.inst_pred("Exception")(e)))
+    held = ex.eval_pure("exc._partial_state", s) if "exc" in s.env else None
+    conds = [z3.Or(smt.inst_pred("ExecutionError")(e), z3.Not(smt.inst_pred("Exception")(e)))]
+    if held is not None:
+        conds.append(z3.Implies(is_pause, held == env["state"].t))
+    return z3.And(*conds)
 
 
 def contract(cls, step):
@@ -69,7 +91,7 @@ def contract(cls, step):
         imports={"END": "hypergraph.nodes.gate"},
         may_raise={"BaseException": True},
         trace=[{"name": "C04 InfiniteLoopError exactly when nodes are still ready after max_iterations steps; quiescent runs return", "check": loop_verdict},
-               {"name": "C11 only ExecutionError (carrying the state so far) leaves the superstep loop", "check": wraps_with_state}],
+               {"name": "C11 the only Exception that leaves the superstep loop is ExecutionError (carrying the state so far)", "check": wraps_with_state}],
         # the graph is immutable: its well-formedness facts survive every superstep (carried explicitly because the loop
         # re-binds `state`, so the loop cut forgets the whole heap)
         loops=[{"bound": "max_iterations", "body_trace": [superstep_once(step), ids_to_superstep(step)], "invariant": ["nodes_keyed_by_name(graph)", "gates_wellformed(graph, END)"]}],
@@ -102,5 +124,7 @@ CONTRACTS = {
     AR + "_execute_graph_impl_async": contract("AsyncRunner", "run_superstep_async"),
 }
 CONTRACTS[AR + "_execute_graph_impl_async"]["props"] = ["C04", "C02", "C11", "C12", "C15"]
+CONTRACTS[AR + "_execute_graph_impl_async"]["props"].append("C14")
 CONTRACTS[AR + "_execute_graph_impl_async"]["trace"] = CONTRACTS[AR + "_execute_graph_impl_async"]["trace"][:1] + [
+    {"name": "C14/C11 only ExecutionError or a non-Exception signal leaves the loop; a pause carries the pre-step state", "check": pause_carries_state},
     {"name": "C15 limiter installed iff absent and requested; reset on every exit path; supersteps only in between", "check": limiter_bracket}]
